@@ -19,6 +19,8 @@ appends the entry's revision and executable flag to the parent's line. A field t
 influence the testament. Determinism: iteration over parent_ids and revprops is wrapped in sorted(); the entries come
 from tree.list_files (ordered by the tree). as_sha1 hashes as_text_lines() and as_short_text embeds as_sha1(): all
 forms derive from the one line list. The long/short headers of the three classes are pairwise distinct.
+Added while testing against seeded changes: Also: _get_entries has a single, format-independent source; the commit
+timestamp is rounded to the 1 ms resolution revisions are serialised with.
 Does not decide: injectivity of the text encoding (escaping of paths and values).
 """
 REV_FIELDS = ["revision_id", "committer", "timestamp", "timezone", "parent_ids", "message", "revprops"]
